@@ -157,8 +157,24 @@ func tTag(c context, s []byte) (context, int) {
 	}, j
 }
 
+// afterUnfinishedElementName is used in states that can be joined with the state directly
+// after an element name, e.g. in `<input{{if .C}} checked{{end}}x>`: if the name is unfinished
+// on one path and s does not end it, s continues it on that path.
+func afterUnfinishedElementName(e element, s []byte) element {
+	if e.partial && len(s) != 0 {
+		switch s[0] {
+		case ' ', '\t', '\n', '\f', '\r', '/', '>':
+		default:
+			e.continued = true
+		}
+		e.partial = false
+	}
+	return e
+}
+
 // tAttrName is the context transition function for stateAttrName.
 func tAttrName(c context, s []byte) (context, int) {
+	c.element = afterUnfinishedElementName(c.element, s)
 	i, err := eatAttrName(s, 0)
 	if err != nil {
 		return context{state: stateError, err: err}, len(s)
@@ -170,6 +186,7 @@ func tAttrName(c context, s []byte) (context, int) {
 
 // tAfterName is the context transition function for stateAfterName.
 func tAfterName(c context, s []byte) (context, int) {
+	c.element = afterUnfinishedElementName(c.element, s)
 	// Look for the start of the value.
 	i := eatWhiteSpace(s, 0)
 	if i == len(s) {
